@@ -13,7 +13,7 @@ From Coq Require Import List Bool Arith.
 Import ListNotations.
 From LV Require Import Graph.Graph Graph.GraphProofs Graph.GraphMemo Graph.GraphExamples
   Graph.GraphX Graph.GraphXProofs Graph.GraphXExamples Graph.CorrC01X
-  Graph.GraphF Graph.GraphFProofs Graph.GraphFExamples Graph.CorrC01F.
+  Graph.GraphF Graph.GraphFProofs Graph.GraphFExamples Graph.CorrC01F Graph.GraphWf.
 
 (* every node that reports itself up to date holds exactly the from-scratch value for the current
    values of the Value nodes *)
@@ -322,3 +322,11 @@ Example C01_example_raising :
               /\ flags_all exg (cur (st' o4)) = [false; false; false; false; false; false; false]))).
 Proof. exact ex_raising_full. Qed.
 Print Assumptions C01_example_raising.
+
+(* the boolean well-formedness test that lets a generated graph into the correspondence runs (and that the
+   Examples use through wfb_wf) accepts a graph exactly when the graph meets the hypothesis wf of the theorems
+   above (Graph/GraphWf.v): no covered graph is turned away, no uncovered graph is let in *)
+Theorem C01_wf_test_exact : forall F (g : LV.Graph.Graph.graph F),
+  LV.Graph.Graph.wfb g = true <-> LV.Graph.Graph.wf g.
+Proof. intros F g. exact (wfb_iff g). Qed.
+Print Assumptions C01_wf_test_exact.
